@@ -95,6 +95,7 @@ fn observe(root: &std::path::Path, outdir: &std::path::Path, proj: &Project) -> 
     if pkgs.len() > 1 {
         if let Some(order) = topo_orders(&pkgs).into_iter().next() {
             let r = separate(root, outdir, &pkgs, &order, false);
+            let linked_ok = matches!(r.built, Built::Ok { .. });
             match r.built {
                 Built::Ok { go } => obs.push(("link.go".to_string(), go)),
                 Built::Err { stage, messages } => obs.push(("link.diagnostics".to_string(), format!("{}:{}", stage, messages.join("\n")))),
@@ -103,6 +104,9 @@ fn observe(root: &std::path::Path, outdir: &std::path::Path, proj: &Project) -> 
             for (name, (ij, _, cj)) in r.artifacts {
                 obs.push((format!("artifact.{}.interface", name), ij));
                 obs.push((format!("artifact.{}.core", name), cj));
+            }
+            if linked_ok {
+                obs.extend(faulty_links(root, outdir, &pkgs, &order));
             }
         }
     }
@@ -114,6 +118,58 @@ fn observe(root: &std::path::Path, outdir: &std::path::Path, proj: &Project) -> 
                 obs.push(("~discovery_order".to_string(), g.discovery_order.join(">")));
             }
         }
+    }
+    obs
+}
+
+/// link attempts that must fail, and whose failure report is observable: every package's core
+/// left out in turn, and every package rebuilt alone with one more exported item (so that all of
+/// its dependents are stale at once); cores are offered in build order and in reverse
+fn faulty_links(root: &std::path::Path, outdir: &std::path::Path, pkgs: &[PkgInfo], order: &[String]) -> Vec<(String, String)> {
+    use compiler::pipeline::separate::{build_package, link_cores, read_core};
+    let mut obs = Vec::new();
+    let link = |dir: &std::path::Path, names: &[String]| -> String {
+        let r = std::panic::catch_unwind(std::panic::AssertUnwindSafe(|| {
+            let mut units = Vec::new();
+            for n in names {
+                units.push(read_core(&dir.join(format!("{}.core", n)))?);
+            }
+            link_cores(units)
+        }));
+        match r {
+            Ok(Ok(_)) => "linked".to_string(),
+            Ok(Err(e)) => format!("rejected: {}", e.diagnostics().iter().map(|d| d.message().to_string()).collect::<Vec<_>>().join("\n")),
+            Err(p) => format!("panic: {}", crate::oracle::panic_message(p)),
+        }
+    };
+    let rev: Vec<String> = order.iter().rev().cloned().collect();
+    for x in order.iter().filter(|n| *n != "Main") {
+        let without: Vec<String> = order.iter().filter(|n| *n != x).cloned().collect();
+        let without_rev: Vec<String> = rev.iter().filter(|n| *n != x).cloned().collect();
+        obs.push((format!("link-without.{}", x), link(outdir, &without)));
+        obs.push((format!("link-without.{}.reversed", x), link(outdir, &without_rev)));
+        // rebuild x alone with one more exported item, into a copy of the artifact directory
+        let pkg = pkgs.iter().find(|p| &p.name == x).unwrap();
+        let stale_dir = outdir.with_extension("stale");
+        let _ = std::fs::remove_dir_all(&stale_dir);
+        std::fs::create_dir_all(&stale_dir).unwrap();
+        for e in std::fs::read_dir(outdir).unwrap().flatten() {
+            let _ = std::fs::copy(e.path(), stale_dir.join(e.file_name()));
+        }
+        let file = root.join(&pkg.files[0]);
+        let original = std::fs::read_to_string(&file).unwrap();
+        std::fs::write(&file, format!("{}\nfn zz_one_more_item() -> int32 {{ 0 }}\n", original)).unwrap();
+        let built = std::panic::catch_unwind(std::panic::AssertUnwindSafe(|| build_package(inputs(root, pkg, &stale_dir))));
+        std::fs::write(&file, original).unwrap();
+        if let Ok(Ok(u)) = built {
+            write_interface(&stale_dir, &u.interface);
+            write_core(&stale_dir, &u);
+            obs.push((format!("link-stale.{}", x), link(&stale_dir, order)));
+            obs.push((format!("link-stale.{}.reversed", x), link(&stale_dir, &rev)));
+        } else {
+            obs.push((format!("link-stale.{}", x), "rebuild failed".to_string()));
+        }
+        let _ = std::fs::remove_dir_all(&stale_dir);
     }
     obs
 }
@@ -162,7 +218,7 @@ impl Family for Determinism {
         300
     }
     fn rule(&self) -> &'static str {
-        "projects = 8 corpus projects + 6 generated + 4 ill-typed variants + 2 projects with several diagnostics / several impls + 74 single-file corpus programs + one project per import DAG on 5 packages in which Main reaches every package (10 possible edges; <= 4 edges, plus the 5-edge ones in one naming, in quick; all in thorough) x 2 directory namings (alphabetical order agreeing with / opposing the topological order) x {well-typed, every leaf ill-typed, every leaf declaring a wrong package name}; for each: hash seeds 0..15 (quick) / 0..127 (thorough) (DAG projects: 0..7 / 0..31) x 2 file creation orders x {whole-program compile, separate build+link through files} in this process, plus a second process for seeds 0 and 1, plus 4 spellings of the entry path (bare file name and ./ from inside the project directory, dir/main.gom from its parent, ../dir/main.gom); first an audit that every std hash collection of the compiler crate is imported through the seeded seam and that no clock / random / environment / thread source appeared; observables: Go text, Core/Mono/Lift/ANF dumps, ordered diagnostics, .interface/.core JSON (incl. interface hashes); oracle: byte-identical to the seed-0 baseline. Non-vacuity: the number of distinct package discovery orders produced by the seeds is measured per project. non-trivial = projects for which the seeds produced more than one iteration order of a seeded set of its package names (measured); distinct = distinct (project, seed, order)"
+        "projects = 8 corpus projects + 6 generated + 4 ill-typed variants + 2 projects with several diagnostics / several impls + 74 single-file corpus programs + one project per import DAG on 5 packages in which Main reaches every package (10 possible edges; <= 4 edges, plus the 5-edge ones in one naming, in quick; all in thorough) x 2 directory namings (alphabetical order agreeing with / opposing the topological order) x {well-typed, every leaf ill-typed, every leaf declaring a wrong package name}; for each: hash seeds 0..15 (quick) / 0..127 (thorough) (DAG projects: 0..7 / 0..31) x 2 file creation orders x {whole-program compile, separate build+link through files, and for every non-Main package X the links that must fail: X's core left out, X rebuilt alone with one more exported item so that all its dependents are stale at once, cores offered in build order and reversed} in this process, plus a second process for seeds 0 and 1, plus 4 spellings of the entry path (bare file name and ./ from inside the project directory, dir/main.gom from its parent, ../dir/main.gom); first an audit that every std hash collection of the compiler crate is imported through the seeded seam and that no clock / random / environment / thread source appeared; observables: Go text, Core/Mono/Lift/ANF dumps, ordered diagnostics, .interface/.core JSON (incl. interface hashes); oracle: byte-identical to the seed-0 baseline. Non-vacuity: the number of distinct package discovery orders produced by the seeds is measured per project. non-trivial = projects for which the seeds produced more than one iteration order of a seeded set of its package names (measured); distinct = distinct (project, seed, order)"
     }
     fn cases(&self, tier: Tier) -> Box<dyn Iterator<Item = Value> + '_> {
         let nf = n_fixed();
@@ -228,7 +284,7 @@ impl Family for Determinism {
                             if reported.insert(what.clone()) {
                                 rep.findings.push(Finding {
                                     property: "C13",
-                                    class: format!("nondeterministic.{}", what.split('.').last().unwrap_or("")),
+                                    class: if what.starts_with("link-") { "nondeterministic.link-failure-report".to_string() } else { format!("nondeterministic.{}", what.split('.').last().unwrap_or("")) },
                                     site: format!("project={};observable={}", proj.name, what),
                                     detail: format!("seed {} (creation order {}) gives a different {} than seed 0", seed, oi, k1),
                                     replay: json!({"kind": "determinism", "project": proj.name, "files": proj.files, "seed": seed, "observable": k1, "baseline_excerpt": first_diff(v1, v2)}),
